@@ -129,8 +129,8 @@ theorem glycan_mass_linear_gen (isMono : Bool) (g : Comp) (h : ∀ kv ∈ g, kv.
 example : ∀ kv ∈ [(str% "HexNAc", Num.ofInt 2), (str% "Hex", Num.ofInt 3), (str% "NeuAc", (⟨3/2, true⟩ : Num))],
     kv.1 ∈ namesSorted MONO := by decide +kernel
 
-/-- the mass of a concatenated dict is the sum of the masses (errors: the first one in evaluation order… the model
-evaluates the tail first, so the error of `g₁` is reported in preference) -/
+/-- the mass of a concatenated dict is the sum of the masses; when either part fails so does the whole, an error of
+`g₁` taking precedence (a modelling choice: Python raises the first error in item order) -/
 theorem glycan_mass_append (mono : List Entry) (isMono : Bool) (g₁ g₂ : Comp) :
     glycanMassDict mono isMono (g₁ ++ g₂) =
       (match glycanMassDict mono isMono g₁, glycanMassDict mono isMono g₂ with
@@ -343,6 +343,27 @@ example : ∀ kv ∈ [(str% "HexNAc", Num.ofInt 4), (str% "Hex", Num.ofInt 5), (
     kv.1 ∈ namesSorted MONO ∧ (kv.1 = str% "Neu" → (match kv.2.show with | 53 :: _ => false | _ => true) = true) := by
   decide +kernel
 
+/-- exactly which written forms are ambiguous in the generated vocabulary: a dict (keys among the 47 names and
+synonyms, printable counts) is unambiguous iff it does not contain `Neu` with count text `5` immediately followed by
+`Ac` or `Acetyl` (`neu5ac`; the written text then reads `…Neu5Ac…`) -/
+theorem unambig_gen_iff (g : Comp) (hk : ∀ kv ∈ g, kv.1 ∈ namesSorted MONO) (hv : ∀ kv ∈ g, NumOK kv.2) :
+    Unambig (namesSorted MONO) g = !neu5ac g :=
+  gen_unambig_eq g hk hv
+
+/-- the round trip for the generated table with the unambiguity hypothesis made explicit: every dict over names and
+synonyms, pairwise different keys, int / finite decimal counts, except `… Neu:5, Ac|Acetyl:… …` -/
+theorem glycan_parse_write_gen_exact (g : Comp) (hk : ∀ kv ∈ g, kv.1 ∈ namesSorted MONO)
+    (hv : ∀ kv ∈ g, NumWF kv.2) (hd : (g.map (·.1)).Nodup) (hn : neu5ac g = false) :
+    parseGlycan MONO (writeGlycan g []) [] = .ok g := by
+  refine glycan_parse_write_gen g ?_ hv hd
+  rw [gen_unambig_eq g hk (fun kv hkv => numOK_of_wf kv.2 (hv kv hkv)), hn]
+  rfl
+
+example : neu5ac [(str% "Neu", Num.ofInt 5), (str% "Hex", Num.ofInt 1), (str% "Ac", Num.ofInt 2)] = false := by
+  decide +kernel
+example : neu5ac [(str% "Hex", Num.ofInt 1), (str% "Neu", Num.ofInt 5), (str% "Acetyl", Num.ofInt 2)] = true := by
+  decide +kernel
+
 /-! ## the separated form (`sep` = one character that is not part of a number) -/
 
 /-- with a separator the text is split at every separator and read as name, count, name, count, …; the vocabulary is
@@ -410,5 +431,19 @@ theorem glycan_formula_property (g : Comp) (isMono : Bool) (hu : Unambig (namesS
 example : Unambig (namesSorted MONO) [(str% "HexNAc", Num.ofInt 4), (str% "Hex", Num.ofInt 5),
     (str% "Fucose", Num.ofInt 1), (str% "NeuAc", ⟨3/2, true⟩), (str% "S", Num.ofInt (-2))] = true := by
   decide +kernel
+
+/-! ## the tokenizer loop ends -/
+
+/-- with the generated vocabulary the tokenizer never reaches the endless loop (`hang`: an empty name matching):
+on every text it ends with a dict or with `InvalidGlycanFormulaError` -/
+theorem glycan_parse_total (s : Str) :
+    (∃ c, parseGlycan MONO s [] = .ok c) ∨ parseGlycan MONO s [] = .error .invalidGlycanFormula := by
+  unfold parseGlycan
+  cases s with
+  | nil => exact Or.inl ⟨[], rfl⟩
+  | cons c r => exact parseGlycanAux_total (namesSorted MONO) names_nonempty (c :: r) 0 []
+
+example : parseGlycan MONO (str% "Hex2Xyz1") [] = .error .invalidGlycanFormula := by decide +kernel
+example : parseGlycan MONO (str% "Hex1.2.3") [] = .error .invalidGlycanFormula := by decide +kernel
 
 end C15Glycan
